@@ -35,7 +35,7 @@ ASSUMPTIONS = ["Rust semantics of Vec/usize/f64 as modelled (IEEE-754 binary64, 
                "the three libm-backed primitives are an oracle table recorded from the implementation's own run, not modelled",
                "accuracy of the returned roots (backward error) and convergence of Laguerre's iteration are searched, not proved; "
                "seven failure classes are recorded known findings: six decided by the model's trace (KF-C10-A/B/C/E/F/G) and one decided by the input alone (KF-C10-H, common scale of the coefficients)"]
-UNPROVED = ["normwise backward error of the returned values in f64 (tie + search; false of the code on the classes KF-C10-A/B/C/E/F/G/H; the UNPOLISHED backward-error clause at degree >= 4 with every laguer call converged is excused (KF-C10-C) only when the reference roots span a factor >= 10 in modulus -- the search has not seen it fail on the pinned algorithm otherwise, and such a failure is reported as a violation)",
+UNPROVED = ["normwise backward error of the returned values in f64 (tie + search; false of the code on the classes KF-C10-A/B/C/E/F/G/H; the UNPOLISHED backward-error clause at degree >= 4 with every laguer call converged is excused (KF-C10-C) only when the reference roots span a factor >= 10 in modulus; otherwise such a failure is reported as a violation -- the search has seen ONE such input on the unchanged source in 15 quick seeds: VERIF_SEED=8, family random-cplx, degree 11, nine roots of modulus ~1 and two of modulus ~7.5-8 (spread 8.02), backward error 5.5e-9 > 1e-10, findings/C10-KF-C-spread.md)",
             "convergence of Laguerre's iteration (false of the code from x = 0 on nearly symmetric deflated polynomials: KF-C10-A)",
             "one-to-one correspondence with the true roots (search: prescribed-root families, and on every other case of degree >= 2 certified reference roots from an independent solver, when well separated and well conditioned); FALSE of the code on KF-C10-G (refine = true, degree >= 4: two polishing calls entered with different drifted estimates end on the same root, a well-separated true root is matched by no returned value), on KF-C10-B (a0 = 0 with refinement) and on KF-C10-H (common scale)",
             "statelessness of Polynomial::roots (search: the same object asked twice / cloned / fresh, bitwise)",
@@ -845,7 +845,7 @@ def classify(case, items, kind, root=None, unmatched=None):
         ref = reference_roots(coeffs)
         if ref is None: return "KF-C10-C"
         mags = [abs(z) for z in ref]
-        if min(mags) == 0 or max(mags) / min(mags) >= 10: return "KF-C10-C"
+        if min(mags) == 0 or max(mags) / min(mags) >= KF_C_MIN_SPREAD: return "KF-C10-C"
         return None
     # KF-C10-G (recorded in KNOWN_FINDINGS.txt; findings/special-values-specA/C10-finding-polish-collapse.md): the same drift WITH refinement -- degree >= 4, every
     #           laguer call converged / stalled with finite values, and two polishing calls that were entered with DIFFERENT
@@ -858,6 +858,7 @@ def classify(case, items, kind, root=None, unmatched=None):
                     return "KF-C10-G"
     return None
 
+KF_C_MIN_SPREAD = 10.0   # KF-C10-C, "root magnitudes span orders": max|r| / min|r| of the reference roots at least this
 KEY_COUNTS = {}
 PRIM_COV = {}
 
